@@ -12,17 +12,7 @@ NOTE_COMMON = (
     "inert import stubs for absent third-party packages. "
 )
 
-CLAIMED = {
-    "C17": dict(
-        text="Proof: six theorems about the executable model PgFdr.C17.cutoff (first crossing of the running mean in ascending order of the finite PEPs, "
-        "default 1, mean below the cutoff ≤ level, monotone in the level, permutation-invariant, non-finite entries ignored) for every list and level; "
-        "the model is tied to fdr.calc_post_err_prob_cutoff by an exact (rational) differential check on seeded multisets with NaN/inf entries, and an "
-        "independent Fraction oracle searches the real code for failing inputs.",
-        design_ref="DESIGN.md §5 C17, §13, §14.5",
-        note="Assumes exact float sums on the generated dyadic PEP grid and correctly rounded division; near-tie cases (a running mean that rounds onto the level) are skipped and counted.",
-        technique="Lean 4 theorems over the model + exact differential correspondence with the real function",
-    ),
-}
+CLAIMED = {}   # C17 is read from notes/C17.md like the others
 
 CLAIMED["C07"] = dict(
     category="proof",
@@ -44,7 +34,6 @@ EXTRA_TEXT = {
     "C10": " purity_rescued_grouping and purity_reported_groups extend purity to the rescue stage and to every row of a successful Pipeline.run (all groupings and strategies) under MarkerOnlyAsPrefix.",
     "C18": " shipped_methods_guarantees instantiates the end-to-end ranking / q-value / row-consistency theorems of C01 and C06 for the pipeline configuration of every shipped method (table regenerated from the TOML files on every run); no_remap_named_methods_do_not_remap is a naming obligation over the same table.",
     "C07": " pipeline_calls_independent proves, for the concrete composed model the driver executes, that along any sequence of inputs every call on a reused configuration returns what a call on a fresh one returns; every call of the real call sequences is compared with that model.",
-    "C17": " About 4 % of the cases run whole rescue-method pipelines and compare the cutoff the callers obtain (the value the rescue pass reports with) with the composed model and with an independent recomputation.",
 }
 
 # corrections after the independent audit (notes/props-audit.md) and after the fix commits landed: (pid, old, new),
